@@ -20,7 +20,7 @@ CLAIMS = {
 }
 
 CLAIMS.update({
-    "C17": ("package-wide effect inventory (import-resolved references) + call-graph reachability + dominating guards", "The complete syntactic inventory of evaluation/process/file-write/network primitives of the package and its reachability from the server entry points is decided for all inputs (inputs do not change which primitives the code can call): no dynamic evaluation with computed arguments anywhere, no reachable file write except the debug log under its option, network/process effects only behind disable_autoupdate with constant targets. Not decided: effects inside third-party libraries (json5, packaging) or through reflection."),
+    "C17": ("package-wide effect inventory (import-resolved references) + call-graph reachability + dominating guards", "The complete syntactic inventory of evaluation/process/file-write/network primitives of the package and its reachability from the server entry points is decided for all inputs (inputs do not change which primitives the code can call): no dynamic evaluation with computed arguments anywhere (eval/exec/compile/import machinery, pickle, subprocess/os process calls, logging.config and other configuration-driven object construction), no reachable file write except the debug log under its option, network/process effects only behind disable_autoupdate with constant targets. Not decided: effects inside third-party libraries (json5, packaging) or through reflection."),
     "C19": ("table agreement between argparse declarations and configuration loaders + handler coverage", "Option tables of cli() and the three loaders agree (every effective option loadable, key = attribute, default = current command-line value, set-valued options wrapped), derived state recomputed, consumers after the load, the loader's try covers OSError/ValueError/TypeError/AttributeError with a message and no re-raise; the stored value depends on the current value only through the .get default (no merging), and the loaders read the parsed file itself, not a value-filtered copy. Not decided: that an option has the same downstream effect on both channels; partial application when a loader fails midway."),
 })
 
@@ -29,12 +29,12 @@ CLAIMS.update({
 })
 
 CLAIMS.update({
-    "C18": ("regex syntax-tree queries (anchoring, finite language) + dominating-condition check at the collection point + call order", "The suffix pattern template is end-anchored per alternative, its default alternative is exactly the finite documented suffix list in both letter cases, user suffixes pass re.escape on both construction paths, the pattern is applied with search() to bare directory entries; every append to the start-up file list is dominated by all four filters; directory discovery guards, root-relative glob expansion, directories-only, subtraction after expansion, and the initialize call order are checked. Not decided: the resulting file set on a concrete directory tree."),
+    "C18": ("regex syntax-tree queries (anchoring, finite language) + dominating-condition check at the collection point + call order", "The suffix pattern template is end-anchored per alternative, its default alternative is exactly the finite documented suffix list in both letter cases, user suffixes pass re.escape on both construction paths, the pattern is applied with search() to bare directory entries; every append to the start-up file list is dominated by all four filters; directory discovery guards, root-relative glob expansion, directories-only, subtraction after expansion, and the initialize call order are checked; glob patterns are expanded by a primitive whose `*` also matches dot-names (pathlib / fnmatch; glob.glob only with include_hidden). Not decided: the resulting file set on a concrete directory tree."),
 })
 
 CLAIMS.update({
-    "C02": ("regex-language enumeration of the line splitter, def-use/shape matching of the splice, dominators in the edit routine", "Decides: the splitter's language is exactly {LF, CRLF, CR} with CRLF consumed as one, on both ingestion paths; trailing-newline fix-up agrees with the splitter; every buffer mutation keeps contents_pp/nLines in step and is dominated by the hash reset; changes applied forwards, once, abort on failure; splice provenance (prefix ends at range start, suffix starts at range end, strict copy condition); every entry-exit path of the didChange handler applies the content changes or posts a message (no change notification is dropped silently). Not decided: the splice arithmetic for every range (value-level)."),
-    "C03": ("interprocedural dominating-facts analysis (nullability, non-emptiness), def-use taint into regex sinks, regex-tree ambiguity query, loop-progress check on per-loop CFGs", "Decides four mechanisms by which text kills this parser: parser state that is None outside constructs is never dereferenced unguarded (with lock-step twin, establishing calls, caller obligations, result-conditioned summaries); constant end-subscripts on possibly empty text are guarded; document/option text reaches no pattern unescaped and no replacement template unescaped, no pattern has ambiguous nested unbounded repetition; every while loop of the indexing code has a progress statement on every cycle; a call result that is unpacked, subscripted, iterated or dereferenced on the spot comes from functions that return a value on every path. Not decided: absence of every other exception, concrete time bounds."),
+    "C02": ("regex-language enumeration of the line splitter, def-use/shape matching of the splice, dominators in the edit routine", "Decides: the splitter's language is exactly {LF, CRLF, CR} with CRLF consumed as one, on both ingestion paths; trailing-newline fix-up agrees with the splitter; every buffer mutation keeps contents_pp/nLines in step and is dominated by the hash reset; changes applied forwards, once, abort on failure; splice provenance (prefix ends at range start, suffix starts at range end, strict copy condition); every entry-exit path of the didChange handler applies the content changes or posts a message (no change notification is dropped silently); a range coordinate re-bound before the splice is clamped only to the length of the line it addresses. Not decided: the splice arithmetic for every range (value-level)."),
+    "C03": ("interprocedural dominating-facts analysis (nullability, non-emptiness), def-use taint into regex sinks, regex-tree ambiguity query, loop-progress check on per-loop CFGs", "Decides four mechanisms by which text kills this parser: parser state that is None outside constructs is never dereferenced unguarded (with lock-step twin, establishing calls, caller obligations, result-conditioned summaries); constant end-subscripts on possibly empty text are guarded; document/option text reaches no pattern unescaped and no replacement template unescaped, no pattern has ambiguous nested unbounded repetition; every while loop of the indexing code has a progress statement on every cycle; a call result that is unpacked, subscripted, iterated or dereferenced on the spot comes from functions that return a value on every path; macro-table values (text, (args, body) tuples, anything the JSON configuration supplies) are used as text only where a path-sensitive kind analysis shows them to be text (conversion, type test, pattern cache keyed by what the entry's kind depends on). Not decided: absence of every other exception, concrete time bounds."),
 })
 
 CLAIMS.update({
@@ -44,11 +44,11 @@ CLAIMS.update({
 
 CLAIMS.update({
     "C10": ("interprocedural write-effect summaries (roots self/param/global, freshness, return aliasing) + CFG dominance in the resolvers and the re-index routine", "Decides which state can survive re-indexing at all: no read-only request (nor computing diagnostics) writes a field of the server, a file, an AST or an entity; every resolver that looks a name up resets or reassigns its link on every path and link containers are emptied before refilling; no link is cached outside the re-link path; old top-level entries are pruned before the new AST is installed, a failed parse touches nothing, closing a deleted file prunes; parsing does not mutate the option objects it is given. Not decided: equality with a fresh server over all histories."),
-    "C15": ("effect summary of the pool worker + dominance/order checks of the phase structure + sibling comparison", "Decides the phase structure that makes the start-up index schedule-independent: the worker is a static function whose transitive writes touch only fresh objects and the per-process keyword-order global; join precedes the first result.get(); the merge loop resolves nothing across files; includes for all files, version bump, then links for all files - at start-up and on every open/save; both indexing paths construct and parse files with the same arguments; the include and link calls are unconditional inside the whole-workspace loops; a derived type forces its parent's inheritance on every path before copying the parent's members. Not decided: order-dependence inside the resolvers, pickling fidelity, unordered sources of the file list."),
+    "C15": ("effect summary of the pool worker + dominance/order checks of the phase structure + sibling comparison", "Decides the phase structure that makes the start-up index schedule-independent: the worker is a static function whose transitive writes touch only fresh objects and the per-process keyword-order global; join precedes the first result.get(); the merge loop resolves nothing across files; includes for all files, version bump, then links for all files - at start-up and on every open/save; both indexing paths construct and parse files with the same arguments; the include and link calls are unconditional inside the whole-workspace loops; a derived type forces its parent's inheritance on every path before copying the parent's members; a process-wide parse setting that workers receive as an argument holds the same option value in the server process when initialisation ends (event order over constructor + initialize, including the configuration load). Not decided: order-dependence inside the resolvers, pickling fidelity, unordered sources of the file list."),
 })
 
 CLAIMS.update({
-    "C07": ("def-use obligations along the diagnostic pipeline, CFG path check per constructed diagnostic, constant folding of severities, write-effect summary of get_diagnostics", "Decides the error discipline of the diagnostic pipeline: every function that builds diagnostics is reachable from the aggregator, each per-scope checker's result and each callee-returned diagnostic is added, scope list and none-scope are both visited, end errors and parse errors are returned, both parts are merged and built, the list is published unchanged under the document's URI on every non-error path; no constructed diagnostic can reach the end of its function unappended; severities are 1..3; computing diagnostics writes no persistent state; a related location becomes a URI only when its path exists (declarations of intrinsic modules have none); nothing created before the scope loop is handed to a per-scope checker that both writes and reads it. Not decided: silence on all valid programs, presence at every seeding position (what the checkers find)."),
+    "C07": ("def-use obligations along the diagnostic pipeline, CFG path check per constructed diagnostic, constant folding of severities, write-effect summary of get_diagnostics", "Decides the error discipline of the diagnostic pipeline: every function that builds diagnostics is reachable from the aggregator, each per-scope checker's result and each callee-returned diagnostic is added, scope list and none-scope are both visited, end errors and parse errors are returned, both parts are merged and built, the list is published unchanged under the document's URI on every non-error path; no constructed diagnostic can reach the end of its function unappended; severities are 1..3; computing diagnostics writes no persistent state; a related location becomes a URI only when its path exists (declarations of intrinsic modules have none); nothing created before the scope loop is handed to a per-scope checker that both writes and reads it; the valid-parent predicate of procedures, evaluated over the table of type ids, is false for a parent of class Type and of every subclass of Block. Not decided: silence on all valid programs, presence at every seeding position (what the checkers find)."),
 })
 
 CLAIMS.update({
@@ -56,16 +56,16 @@ CLAIMS.update({
 })
 
 CLAIMS.update({
-    "C05": ("argument/default resolution at every scope look-up call site (lexical vs USE-reached scope), dominating-condition and statement-order checks in the resolver", "Decides the rule table of name resolution: every look-up into a module reached by USE passes the public filter (explicitly or by default), lexical look-ups do not, the filter tests both the entity's own accessibility and the module default before the name comparison and is forwarded into nested interface look-ups; in the USE loop the ONLY list is tested before and the rename map applied to the look-up; the search order is own scope, INCLUDE/USE, host, submodule ancestors; the USE traversal is cycle-cut and a derived type's members include inherited ones. Not decided: that the declaration found is the one Fortran binds for every program (value-level), get_inner_scope's choice of scope."),
+    "C05": ("argument/default resolution at every scope look-up call site (lexical vs USE-reached scope), dominating-condition and statement-order checks in the resolver", "Decides the rule table of name resolution: every look-up into a module reached by USE passes the public filter (explicitly or by default), lexical look-ups do not, the filter tests both the entity's own accessibility and the default of the scope being searched (not of the child's own parent, which INCLUDE grafting re-binds) before the name comparison and is forwarded into nested interface look-ups; in the USE loop the ONLY list is tested before and the rename map applied to the look-up; the search order is own scope, INCLUDE/USE, host, submodule ancestors; the USE traversal is cycle-cut and a derived type's members include inherited ones. Not decided: that the declaration found is the one Fortran binds for every program (value-level), get_inner_scope's choice of scope."),
     "C12": ("tag-table agreement between classifier and handler, dominating-facts check at every item append, argument/default resolution at collector call sites, constant folding of the type-mask length against all type ids (code and bundled JSON)", "Decides: every context tag the classifier returns is handled and every tag handled can be produced; the typed prefix is lower-cased and every completion item is appended under a lower-cased startswith test (or comes from the collector, which filters unless the prefix is empty), renamed entities under their local name; members of USE-associated modules are collected with the public filter and the ONLY list (compared on lower-cased names), USE ... ONLY: asks for public members; after CALL every candidate passes is_callable(), in USE only modules; the type mask has an entry for every type id including those of the bundled intrinsic tables; type members include inherited ones. Not decided: that the offered set equals the accessible set on every program (agreement with go-to-definition is only through the shared rules of C05)."),
 })
 
 CLAIMS.update({
-    "C06": ("regex-tree query on the occurrence matcher (zero-width neighbours, hole inside the group, escape, flags), def-use of match spans into hit records, dominating facts at the record point, sibling comparison of the references and rename handlers", "Decides the mechanics that turn occurrences into ranges: one searcher is shared by references, documentHighlight and rename; its pattern consumes nothing but the name (so adjacent occurrences are all found), the name is inserted through re.escape and matched case-insensitively; a hit's record is (0-based line index, start, end) of the name group and the hit is re-resolved at a column inside the identifier; the searched text is comment-stripped by a string-literal-aware cut, preprocessor lines are skipped, a hit is recorded only under a non-None resolution and an identity (qualified-name) comparison, the word expander tries character-literal patterns before the word pattern; rename and references call the searcher with the same arguments under the same restriction code and pass line/start/end and newName through unchanged. Not decided: which occurrences bind to the entity (get_definition's answer, C05), continuation lines."),
+    "C06": ("regex-tree query on the occurrence matcher (zero-width neighbours, hole inside the group, escape, flags), def-use of match spans into hit records, dominating facts at the record point, sibling comparison of the references and rename handlers", "Decides the mechanics that turn occurrences into ranges: one searcher is shared by references, documentHighlight and rename; its pattern consumes nothing but the name (so adjacent occurrences are all found), the name is inserted through re.escape and matched case-insensitively; a hit's record is (0-based line index, start, end) of the name group and the hit is re-resolved at a column inside the identifier; the searched text is comment-stripped by a string-literal-aware cut, preprocessor lines are skipped, a hit is recorded only under a non-None resolution and an identity (qualified-name) comparison, the word expander tries character-literal patterns before the word pattern; rename and references call the searcher with the same arguments under the same restriction code (compared up to the spelling of comparisons) and pass line/start/end and newName through unchanged; the search is restricted to one file only under the nested-entity test (FQSN depth > 2). Not decided: which occurrences bind to the entity (get_definition's answer, C05), continuation lines."),
 })
 
 CLAIMS.update({
-    "C08": ("dominating facts at every statement-reader call and every define/undef/include site, regex-tree enumeration of parenthesis skeletons, def-use of the macro table through the recursive include call, taint of macro text into regex sinks", "Decides necessary conditions around the conditional state machine: in parse() every statement reader is behind the skip test, which tests the same 1-based line variable against region[0] <= line <= region[1] and the directive-line list produced by the preprocessing pass of the same parse (run iff preproc); region bounds are stored as i + 1; #define, #undef, #include and directive-line recording happen only under a flag computed over the whole stack of open conditionals; macro and parameter names are escaped and bodies never used as replacement templates; every match of the `defined` rewriting pattern has balanced parentheses and the looked-up group is the identifier; the macro table is a copy, passed to and taken back from included files, used by every condition, stored on the file; the expansion cache is keyed by everything its entries are computed from. Not decided (said plainly): that the #if/#elif/#else automaton and the expression evaluator agree with a reference preprocessor for all nestings and truth assignments, and character-exact expansion of function-like macro arguments."),
+    "C08": ("dominating facts at every statement-reader call and every define/undef/include site, regex-tree enumeration of parenthesis skeletons, def-use of the macro table through the recursive include call, taint of macro text into regex sinks", "Decides necessary conditions around the conditional state machine: in parse() every statement reader is behind the skip test, which tests the same 1-based line variable against region[0] <= line <= region[1] and the directive-line list produced by the preprocessing pass of the same parse (run iff preproc); region bounds are stored as i + 1; #define, #undef, #include and directive-line recording happen only under a flag computed over the whole stack of open conditionals; macro and parameter names are escaped and bodies never used as replacement templates; every match of the `defined` rewriting pattern has balanced parentheses and the looked-up group is the identifier; the macro table is a copy, passed to and taken back from included files, used by every condition, stored on the file; the expansion cache is keyed by everything its entries are computed from, or invalidated at every place that removes a definition or replaces the table (#undef, the table handed back by an included file). Not decided (said plainly): that the #if/#elif/#else automaton and the expression evaluator agree with a reference preprocessor for all nestings and truth assignments, and character-exact expansion of function-like macro arguments."),
 })
 
 CLAIMS.update({
@@ -73,7 +73,7 @@ CLAIMS.update({
 })
 
 CLAIMS.update({
-    "C11": ("table agreement between the attribute patterns (regex-tree alternatives), the id table, the argument-keeping set and the bundled completion lists; typestate of the pending documentation block on the CFG; backward slice from the hover return values to the entity's fields", "Decides: every attribute the declaration patterns recognise has an id, argument-carrying attributes keep their argument, constant keys exist, every attribute the server's own completion lists offer is recognised by the declaration parser (an unrecognised one silently drops itself and all later attributes); a pending `!>` block is attached by both entity producers and reset on every path afterwards, the forward flag selects between parking and attaching, the parser's buffer is emptied after every hand-over; documentation is never used as a format template; the hover text of a variable depends on desc, kind, keywords, keyword_info, name and param_val and its documentation on its own doc_str, procedures list arg_objs in declared order through each argument's own hover, type hover depends on name/inherit/abstract; a container that an entity method changes in place is created anew for every entity built in a loop. Not decided: kind/len extraction, attribute order, active-parameter computation, which entity a doc block belongs to. One known finding (CODIMENSION) is listed in known_findings.json."),
+    "C11": ("table agreement between the attribute patterns (regex-tree alternatives), the id table, the argument-keeping set and the bundled completion lists; typestate of the pending documentation block on the CFG; backward slice from the hover return values to the entity's fields", "Decides: every attribute the declaration patterns recognise has an id, argument-carrying attributes keep their argument, constant keys exist, every attribute the server's own completion lists offer is recognised by the declaration parser (an unrecognised one silently drops itself and all later attributes); a pending `!>` block is attached by both entity producers and reset on every path afterwards, the forward flag selects between parking and attaching, the parser's buffer is emptied after every hand-over; documentation is never used as a format template; the hover text of a variable depends on desc, kind, keywords, keyword_info, name and param_val and its documentation on its own doc_str, procedures list arg_objs in declared order through each argument's own hover, type hover depends on name/inherit/abstract; a container that an entity method changes in place is created anew for every entity built in a loop; the argument of an attribute is recorded for every occurrence in the attribute list (not gated on what was mapped before), so the entity's own array-spec overrides the statement-level DIMENSION. Not decided: kind/len extraction, attribute order, active-parameter computation, which entity a doc block belongs to. One known finding (CODIMENSION) is listed in known_findings.json."),
 })
 
 NA_REASON = "check under construction in this round (rules designed in DESIGN.md section 3, not yet implemented); will move to checks once its rules run"
